@@ -1,8 +1,14 @@
 (* C20 - numerical helpers: hand-written models (definitions only; no proofs in this file).
-   The interp_* / extrap_* kernels are GENERATED (Gen/Interpolation.v, Gen/Extrapolation.v) and are not
-   repeated here.  Everything below is written once, polymorphic in N : Num. *)
+   GENERATED from the source on every run and NOT repeated here: the interp_* / extrap_* kernels
+   (Gen/Interpolation.v, Gen/Extrapolation.v), every closed-form classmethod of inferno.stats
+   (Gen/Distributions.v: pmf/pdf, logpmf/logpdf, cdf, logcdf, mean, variance, params_mv of Poisson / Normal /
+   LogNormal, with math.tau and the special functions erf, lgamma, gammaincc as parameters) and the element-wise
+   expressions inside isi and the Victor-Purpura loops (Gen/SpikeMath.v: isi_spike_time, vp_cell_finite).
+   Hand-written below: the sequence code around them (pad / nonzero / split / pad_sequence / diff; the two
+   nested loops over the grid) and the explicit-infinity reading of the Poisson mass function at rate = 0.
+   Everything is written once, polymorphic in N : Num. *)
 From Coq Require Import List ZArith Bool Arith.
-From Inferno Require Import Base.Num.
+From Inferno Require Import Base.Num Gen.Distributions Gen.SpikeMath.
 Import ListNotations.
 
 (* ------------------------------------------------------------------------------------------- *)
@@ -57,7 +63,7 @@ Definition isi_last (dt : T N) (trains : list (list bool)) : list (list (option 
   let padded := map (cons true) trains in                               (* F.pad(spikes, (1, 0), value=True) *)
   let nz := flat_map (nonzero_from 0) padded in                         (* torch.nonzero(padded)[..., -1] *)
   let splits := tl (zeros_from 0 nz) in                                 (* ....tolist()[1:] *)
-  let vals := map (fun p => mul N (ofZ N (Z.of_nat p - 1)) dt) nz in    (* (nz - 1) * step_time *)
+  let vals := map (fun p => isi_spike_time N (Z.of_nat p) dt) nz in     (* (nz - 1) * step_time: GENERATED *)
   let pieces := tensor_split vals 0 splits in
   let stacked := map (@tl _) (pad_sequence pieces) in                   (* pad_sequence(...)[:, 1:] *)
   map odiff stacked.                                                    (* torch.diff(intervals, dim=-1) *)
@@ -80,17 +86,15 @@ End ISI.
 Section VP.
 Variable N : Num.
 
-(* cost: Some q = finite cost q; None = +inf.  With cost = inf the shift candidate is
-   grid + inf*|d| = inf (d <> 0) or nan (d = 0) -> nan_to_num(nan=inf) = inf; the two insertion/deletion
-   candidates are finite, so amin never selects it. *)
+(* cost: Some q = finite cost q; None = +inf.
+   Finite cost: the loop body is GENERATED (Gen/SpikeMath.vp_cell_finite: the three candidates and their minimum).
+   cost = inf (hand-written reading of the same statement): the shift candidate is grid + inf*|d| = inf (d <> 0) or
+   nan (d = 0) -> nan_to_num(nan=inf) = inf; the two insertion/deletion candidates are finite, so amin never
+   selects it. *)
 Definition vp_cell (cost : option (T N)) (up left diag x y : T N) : T N :=
-  let c_add_a := add N up (one N) in
-  let c_add_b := add N left (one N) in
   match cost with
-  | Some q =>
-      let c_shift := add N diag (mul N q (abs N (sub N x y))) in
-      tmin N (tmin N c_add_a c_add_b) c_shift
-  | None => tmin N c_add_a c_add_b
+  | Some q => vp_cell_finite N up left diag q x y
+  | None => tmin N (add N up (one N)) (add N left (one N))
   end.
 
 (* inner loop `for c in range(1, m+1)` for one r: prev = grid[r-1, c-1:], left = grid[r, c-1] *)
@@ -130,69 +134,20 @@ Definition vp_scalar (cost : option (T N)) (t0 t1 : list (T N)) : T N :=
 End VP.
 
 (* ------------------------------------------------------------------------------------------- *)
-(* inferno.stats.distributions                 hand-transcribed: inferno/stats/distributions.py:12-707 *)
-Section Dist.
-Variable N : Num.
-Variable tau : T N.                 (* math.tau *)
-Variable erf : T N -> T N.          (* torch.special.erf *)
-
-Definition sq (x : T N) : T N := mul N x x.                         (* x ** 2 *)
-Definition expm1 (x : T N) : T N := sub N (exp N x) (one N).        (* torch.special.expm1 *)
-
-(* ---- Normal (lines 189-419) ---- *)
-Definition normal_params_mv (mean variance : T N) : T N * T N := (mean, sqrt N variance).   (* 250-251 *)
-Definition normal_pdf (x loc scale : T N) : T N :=                                        (* 328-331 *)
-  mul N (div N (one N) (mul N scale (sqrt N tau)))
-        (exp N (mul N (opp N (half N)) (sq (div N (sub N x loc) scale)))).
-Definition normal_logpdf (x loc scale : T N) : T N := ln N (normal_pdf x loc scale).      (* 355 *)
-Definition normal_cdf (x loc scale : T N) : T N :=                                        (* 379-380 *)
-  mul N (half N) (add N (one N) (erf (div N (sub N x loc) (mul N scale (sqrt N (two N)))))).
-Definition normal_logcdf (x loc scale : T N) : T N := ln N (normal_cdf x loc scale).      (* 404 *)
-Definition normal_mean (loc : T N) : T N := loc.                                           (* 418-419 *)
-Definition normal_variance (scale : T N) : T N := sq scale.                                (* 435-436 *)
-
-(* ---- LogNormal (lines 439-707) ---- *)
-Definition lognormal_params_mv (mean variance : T N) : T N * T N :=                        (* 503-509 *)
-  let meansq := sq mean in
-  (ln N (div N meansq (sqrt N (add N meansq variance))),
-   sqrt N (ln N (add N (one N) (div N variance meansq)))).
-Definition lognormal_logpdf (x loc scale : T N) : T N :=                                   (* 609-616 *)
-  let logsupport := ln N x in
-  sub N (sub N (opp N (ln N scale)) logsupport)
-        (mul N (half N) (add N (ln N tau) (sq (div N (sub N loc logsupport) scale)))).
-Definition lognormal_pdf (x loc scale : T N) : T N := exp N (lognormal_logpdf x loc scale). (* 583 *)
-Definition lognormal_cdf (x loc scale : T N) : T N := normal_cdf (ln N x) loc scale.        (* 640-641 *)
-Definition lognormal_logcdf (x loc scale : T N) : T N := ln N (lognormal_cdf x loc scale).  (* 665 *)
-Definition lognormal_mean (loc scale : T N) : T N :=                                        (* 684-685 *)
-  exp N (add N loc (div N (sq scale) (two N))).
-Definition lognormal_variance (loc scale : T N) : T N :=                                    (* 705-707 *)
-  let scalesq := sq scale in
-  mul N (expm1 scalesq) (exp N (add N (mul N (two N) loc) scalesq)).
-
-(* ---- Poisson (lines 12-186); support k is a non-negative integer ---- *)
+(* inferno.stats.distributions: the formulas are GENERATED (Gen/Distributions.v).  What remains here: *)
+(* k! as an integer (used by the instances of lgamma / gammaincc and by the specifications) *)
 Fixpoint factZ (k : nat) : Z := match k with O => 1%Z | S j => (Z.of_nat k * factZ j)%Z end.
-(* torch.lgamma(k + 1) at an integer k: ln(k!)  (Gamma(k+1) = k!) *)
-Definition lgamma1 (k : nat) : T N := ln N (ofZ N (factZ k)).
-(* torch.special.xlogy(x, y): 0 where x = 0, x * log y elsewhere *)
-Definition xlogy (x y : T N) : T N := if eqb N x (zero N) then zero N else mul N x (ln N y).
-Definition poisson_logpmf (k : nat) (rate : T N) : T N :=                                   (* 113-114 *)
-  sub N (sub N (xlogy (ofZ N (Z.of_nat k)) rate) rate) (lgamma1 k).
-Definition poisson_pmf (k : nat) (rate : T N) : T N := exp N (poisson_logpmf k rate).       (* 94 *)
-(* The same two functions with the infinity made explicit (None = -inf), so that the boundary rate = 0 - accepted by
-   Poisson.validate, the point mass at 0 - has a meaning in the real-number reading, where ln 0 is not -inf:
-   xlogy(k, 0) = k * log 0 = -inf for k > 0 and xlogy(0, 0) = 0; every other term is finite. *)
+
+Section PoissonExt.
+Variable N : Num.
+Variable lgamma : T N -> T N.       (* torch.lgamma *)
+(* Poisson.logpmf / pmf (generated: poisson_logpmf, poisson_pmf) at an integer count k, with the infinity made explicit
+   (None = -inf), so that the boundary rate = 0 - accepted by Poisson.validate, the point mass at 0 - has a meaning in
+   the real-number reading, where ln 0 is not -inf: xlogy(k, 0) = k * log 0 = -inf for k > 0 and xlogy(0, 0) = 0;
+   every other term is finite. *)
 Definition poisson_logpmf_ext (k : nat) (rate : T N) : option (T N) :=
-  if andb (eqb N rate (zero N)) (negb (Nat.eqb k 0)) then None else Some (poisson_logpmf k rate).
+  if andb (eqb N rate (zero N)) (negb (Nat.eqb k 0)) then None
+  else Some (poisson_logpmf N lgamma (ofZ N (Z.of_nat k)) rate).
 Definition poisson_pmf_ext (k : nat) (rate : T N) : T N :=                                  (* exp(-inf) = 0 *)
   match poisson_logpmf_ext k rate with None => zero N | Some l => exp N l end.
-(* torch.special.gammaincc(a, x) at an integer a >= 1: the regularised upper incomplete gamma function
-   has the closed form Q(a, x) = exp(-x) * sum_{j < a} x^j / j!   (DLMF 8.4.10) *)
-Definition gammaincc_nat (a : nat) (x : T N) : T N :=
-  mul N (exp N (opp N x))
-        (tsum N (map (fun j => div N (pown N x j) (ofZ N (factZ j))) (seq 0 a))).
-Definition poisson_cdf (support rate : T N) : T N :=                                        (* 133-134 *)
-  gammaincc_nat (Z.to_nat (floorZ N (add N support (one N)))) rate.
-Definition poisson_logcdf (support rate : T N) : T N := ln N (poisson_cdf support rate).    (* 153 *)
-Definition poisson_mean (rate : T N) : T N := rate.                                         (* 168-169 *)
-Definition poisson_variance (rate : T N) : T N := rate.                                     (* 184-185 *)
-End Dist.
+End PoissonExt.
